@@ -139,6 +139,47 @@ type mutator struct {
 	f    func(e mtypes.ExternalEvent, seed int)
 }
 
+// mutPre: optional preparation of the base event (before it is cloned) for the mutator of that name.
+var mutPre = map[string]func(e mtypes.ExternalEvent, seed int){
+	"Sender.digit(no-0x)": func(e mtypes.ExternalEvent, s int) {
+		switch x := e.(type) {
+		case *mtypes.SendToHubEvent:
+			x.Sender = zeroLedSender(s)
+		case *mtypes.TransferToChainEvent:
+			x.Sender = zeroLedSender(s)
+		}
+	},
+}
+
+// zeroLedSender returns an un-prefixed 40-digit sender that starts with zero nibbles or zero bytes (real addresses do,
+// one in sixteen), and digitFlip the same address with one hex digit changed (last, first significant, or a middle one).
+func zeroLedSender(seed int) string {
+	return []string{
+		"0a18c2b7e63fd05aa1b3c4d5e6f708192a3baac5",
+		"00ab18c2b7e63fd05aa1b3c4d5e6f708192a3b17",
+		"000000000000000000000000000000000000a1c5",
+		"0000000a18c2b7e63fd05aa1b3c4d5e6f7081929",
+		"7a18c2b7e63fd05aa1b3c4d5e6f708192a3baac5",
+	}[seed%5]
+}
+
+func digitFlip(a string, seed int) string {
+	pos := len(a) - 1
+	switch (seed / 5) % 3 {
+	case 1:
+		pos = len(a) - 2
+	case 2:
+		pos = len(a) / 2
+	}
+	b := []byte(a)
+	if b[pos] == '5' {
+		b[pos] = '6'
+	} else {
+		b[pos] = '5'
+	}
+	return string(b)
+}
+
 // bumpInt adds a delta chosen by the seed: small ones and exact multiples of 2^32 / 2^64 / 2^128 / 2^192, the
 // differences a fixed-width or truncating hash input would swallow.
 func bumpInt(x sdk.Int, base int64, s int) sdk.Int {
@@ -215,6 +256,10 @@ func mutatorsFor(typ, chain string, fx *fixture) []mutator {
 				x := e.(*mtypes.SendToHubEvent)
 				x.Sender = otherAddr(x.Sender, s)
 			}},
+			{"Sender.digit(no-0x)", func(e mtypes.ExternalEvent, s int) {
+				x := e.(*mtypes.SendToHubEvent)
+				x.Sender = digitFlip(x.Sender, s)
+			}},
 			{"CosmosReceiver", func(e mtypes.ExternalEvent, s int) {
 				e.(*mtypes.SendToHubEvent).CosmosReceiver = sim.UserAddr(2).String()
 			}},
@@ -261,6 +306,10 @@ func mutatorsFor(typ, chain string, fx *fixture) []mutator {
 			{"Sender", func(e mtypes.ExternalEvent, s int) {
 				x := e.(*mtypes.TransferToChainEvent)
 				x.Sender = otherAddr(x.Sender, s)
+			}},
+			{"Sender.digit(no-0x)", func(e mtypes.ExternalEvent, s int) {
+				x := e.(*mtypes.TransferToChainEvent)
+				x.Sender = digitFlip(x.Sender, s)
 			}},
 			{"ExternalReceiver", func(e mtypes.ExternalEvent, s int) {
 				x := e.(*mtypes.TransferToChainEvent)
@@ -537,6 +586,9 @@ func runHashCase(ci interface{}, rec *pbt.Rec) *pbt.Failure {
 			}
 		}
 		e1 = baseEvent(typ, chain, c, fx)
+		if pre := mutPre[m.name]; pre != nil {
+			pre(e1, c.Seed)
+		}
 		e2 = cloneEvent(e1)
 		m.f(e2, c.Seed)
 		field = fmt.Sprintf("%T.%s", e1, m.name)
